@@ -1,6 +1,7 @@
 def cornerSafeAxis (c : Rat) (max_len : Rat) (order : Int) : Int × Int × Rat :=
   let half_len : Rat := (max_len / (2 : Rat))
+  let margin : Int := (if (order = (0 : Int)) then (1 : Int) else (0 : Int))
   let x0 : Int := (Py.trunc ((c - half_len) - ((order : Int) : Rat)))
-  let x1 : Int := (Py.trunc (((((x0 : Int) : Rat) + max_len) + ((((2 : Int) * order) : Int) : Rat)) + (1 : Rat)))
+  let x1 : Int := ((Py.trunc (((((x0 : Int) : Rat) + max_len) + ((((2 : Int) * order) : Int) : Rat)) + (1 : Rat))) + margin)
   let newc : Rat := (c - ((x0 : Int) : Rat))
   (x0, x1, newc)
